@@ -26,8 +26,8 @@ RULE = ("case kinds: stmt (cpu + 1-14 lines of [label] pseudo-op args with args 
 ASSUMPTIONS = [
     "memory leaks are not part of the property (detect_leaks=0)",
     "a wall-clock timeout alone is inconclusive; a hang is reported only when the child's CPU time exceeds 10 s and "
-    "the input satisfies the lexical work predicate (no WHILE/REPT/DUP/READ, no self-recursive macro, no path into "
-    "/dev or /proc, every integer literal < 10000, size <= 64 KiB)",
+    "the input satisfies the lexical work predicate (no WHILE/READ, no self-recursive macro, no path into "
+    "/dev or /proc, every integer literal < 10000 and the product of all literals <= 10^6, size <= 64 KiB)",
     "full -fsanitize=undefined is not used (the code base relies on wrapping arithmetic and &NULL->member); "
     "address + bounds sanitizers and the kernel's signals are the oracle",
 ]
@@ -54,7 +54,7 @@ ARGPOOL = ["", "0", "-1", "1", "2", "255", "256", "65535", "65536", "$7fffffff",
            "x", "x,y", "x:y", "b:$80", "*", "$", ".", "..", "1/0", "1%0", "-9223372036854775808/-1", "1<<64", "1>>-1",
            "1e400", "1e-400", "0.0/0.0", "nan", "2^^3", '"ab"+1', "substr(\"abc\",-1,2)", "substr(\"abc\",1,-2)",
            'strlen(1)', "charfromstr(\"a\",5)", "val(\"((\")", "val(\"1/0\")", "upstring(\"x\")", "sqrt(-1)", "ln(0)",
-           "firstbit(0)", "lastbit(0)", "bitpos(3)", "mask(60,10)", "mask(-1,70)", "cutout(1,64,4)", "getbit(1,64)",
+           "firstbit(0)", "lastbit(0)", "bitpos(3)", "mask(60,10)", "mask(1,2,3,4)", "mask(-1,70)", "cutout(1,64,4)", "getbit(1,64)",
            "rotrn(1,0,1)", "shln(1,0,1)", "exprtype(", "defined(", "symtype(x)", "sizeof(x)", "assumedval(x)",
            "10 dup (1)", "0 dup (1)", "-1 dup (1)", "2 dup (2 dup (2 dup (?)))", "1 dup", "dup (1)", "[3]1", "[0]1",
            "[-1]1", "\\{1}", "\\{", "\\i", "\\777", "\\xzz", "a\\b", "@", "#", "%", "&&", "||", "!!", "><", ">>>",
@@ -222,14 +222,19 @@ def mutate_pfile(blob, edits):
     return bytes(b), invalid
 
 
-WORK_BAD = re.compile(r"\b(while|rept|dup|read|irpc?|irpn|binclude|include)\b|/dev/|/proc/", re.I)
+# repetitions are admitted to the work predicate: with every literal < 10000 their work is bounded by the input
+WORK_BAD = re.compile(r"\b(while|read)\b|/dev/|/proc/", re.I)
 
 
 def lexical_work_ok(text):
     if len(text) > 65536 or WORK_BAD.search(text):
         return False
+    prod = 1
     for m in re.finditer(r"\d+", text):
         if len(m.group(0)) > 4:
+            return False
+        prod *= max(1, int(m.group(0)))
+        if prod > 1000000:          # nested repetitions multiply
             return False
     if re.search(r"[$%@]|0x|h\b", text, re.I) and re.search(r"[0-9a-f]{5,}", text, re.I):
         return False
